@@ -37,7 +37,7 @@ theorem inl_shape : ∀ (i : Inl) (p : NodeValue), inlineParent p = true → sha
   | .emph _ cs, p, hp => shape_node_inline p _ _ hp (by simp) (inls_shape cs .emph rfl)
   | .strong _ cs, p, hp => shape_node_inline p _ _ hp (by simp) (inls_shape cs .strong rfl)
   | .strike cs, p, hp => shape_node_inline p _ _ hp (by simp) (inls_shape cs .strikethrough rfl)
-  | .link u t _ cs, p, hp => shape_node_inline p _ _ hp (by simp) (inls_shape cs (.link u t) rfl)
+  | .link u t _ _ cs, p, hp => shape_node_inline p _ _ hp (by simp) (inls_shape cs (.link u t) rfl)
   | .image u t _ cs, p, hp => shape_node_inline p _ _ hp (by simp) (inls_shape cs (.image u t) rfl)
   | .autolink s r, p, hp => by
     refine shape_node_inline p _ _ hp (Or.inr (Or.inr (Or.inr (Or.inl ⟨_, _, rfl⟩)))) ?_
@@ -99,7 +99,8 @@ theorem items_shape : ∀ (items : Items) (m : Marker) (k : Nat) (L : NList),
 end
 
 theorem doc_shape (d : Doc) (h : d.wf = true) : Shape d.toTree = true := by
-  have hc := blks_shape d.blocks .document false 0 0 .none rfl h
+  simp only [Doc.wf, Bool.and_eq_true] at h
+  have hc := blks_shape d.blocks .document false 0 0 .none rfl h.1
   simp [Shape, Doc.toTree, shapeT, placeOk, localOk, hc]
 
 end Comrak.Canon
